@@ -6,17 +6,20 @@ import behave
 MANIFEST = {
     "id": "C06",
     "text": "Coq: the path analysis of every expression form is part of the executable generator model (exact guard text, tied by "
-            "the C03 text correspondence); theorems on the update-path-tree semantics (Z descent, coverage) and guard soundness for "
-            "the access-chain fragment. Tie / search: metamorphic execution under node of generated templates: create(D0); "
+            "the text correspondence); Model/Upt.v gives update-path trees, coverage and the denotation of the analysed paths; "
+            "C06_guard_sound: for every binding in the fragment (fields, member/index access, literals, unary/binary operators, "
+            "??, conditionals; outside for/slot scopes), if U covers diff(D0,D1) and the emitted guard is false then the value is "
+            "unchanged. The denotation is tied to the emitted guard TEXT by evaluating that text under node (guardden cases). "
+            "Tie / search for everything else (tag protocol, lists, templates, slots, other expression forms): metamorphic execution under node of generated templates: create(D0); "
             "update(D1,U1); ... must equal create(Di) after EVERY step, with U exact, coarsened and `true`; plus, for a family of "
             "small templates, ALL subsets of changed leaf paths (exhaustive).",
     "note": "The TypeScript runtime is represented by jsrt (reference protocol runtime: positional list diff for key-less lists, "
             "conservative trees for keyed lists; no components / dynamic slots). Functions in data are pure.",
-    "technique": "Coq proof (update-path-tree semantics, guard soundness on the access-chain fragment) + exhaustive/ random metamorphic execution under node",
+    "technique": "Coq proof (guard soundness of the path analysis on the access/operator/conditional fragment, update-path-tree coverage) + model/implementation text and denotation correspondence + exhaustive / matrix / random metamorphic execution under node",
     "jsrt": True,
 }
 
-THEOREMS = []
+THEOREMS = ["C06_guard_sound", "C06_path_relates_values", "C06_covers_descends"]
 
 
 def check_results(res, results, label):
@@ -59,6 +62,53 @@ def check_results(res, results, label):
     return n_steps, len(n_nontrivial), found
 
 
+def guard_denotation(res):
+    """the Coq denotation of the guard (Model/Upt.v, what the soundness theorem speaks about) against the guard TEXT
+    evaluated by node, on expressions of the theorem's fragment x update-path trees x data"""
+    p = harness_run(["guardden", res.tier, res.seed], timeout=3000)
+    jobs = [json.loads(l) for l in p.stdout.decode("utf8").split("\n") if l]
+    model = modelrun(["guard_den\t%s\t%s\t%s\t%s" % (j["esc"], j["sexp"], j["u_sexp"], j["data_sexp"]) for j in jobs])
+    njobs = []
+    idx = []
+    for k, (j, m) in enumerate(zip(jobs, model)):
+        if m.startswith(("ERR", "EXC")):
+            raise Infra("guard_den model failed: %s on %s" % (m, j["text"]))
+        if m == "SKIP":
+            continue
+        g, hoisted, guard = m.split("|")
+        hoisted, guard = dec(hoisted), dec(guard)
+        prog = ("(() => { const U = %s; const Z = function(a,b){if(a===true)return true;if(a)return a[b]};"
+                "const Q = {a:function(a){for(var i=0;i<a.length;i++)if(a[i])return a},b:function(b){var a=Object.values(b);for(var i=0;i<a.length;i++)if(a[i])return b}};"
+                "%s; return !!(%s) })()") % (json.dumps(j["u"]), hoisted, guard)
+        njobs.append({"op": "eval", "id": k, "expr": prog, "data": j["data"]})
+        idx.append(k)
+    out = node_jobs(njobs, shards=12)
+    found = n = n_true = 0
+    for k, o in zip(idx, out):
+        j, m = jobs[k], model[k]
+        if o.get("skip"):
+            continue
+        n += 1
+        g = m.split("|")[0] == "G1"
+        n_true += g
+        # the text the denotation was computed for must be the text the implementation emits
+        guard = dec(m.split("|")[2])
+        if ("C||K||" + guard + ")") not in j["impl_body"] and ("C||K||" + guard + "?") not in j["impl_body"]:
+            found += 1
+            if found <= 3:
+                res.violation("guard text of the model is not the text the implementation emits for {{ %s }}: model %s, implementation %s" % (
+                    j["text"], guard[:200], j["impl_body"][:300]), {"expr": j["text"]}, no_input=True)
+            continue
+        if o.get("error") or o.get("value") not in (True, False):
+            raise Infra("guard program failed under node: %s (%s)" % (o, j["text"]))
+        if o["value"] != g:
+            found += 1
+            if found <= 3:
+                res.violation("denotation of the guard differs from the guard text evaluated by node for {{ %s }} with U=%s: model %s, node %s" % (
+                    j["text"], json.dumps(j["u"]), g, o["value"]), {"expr": j["text"], "U": j["u"], "data": j["data"], "guard": guard})
+    return n, n_true, found
+
+
 def run(res):
     ok, what = (True, "")
     if THEOREMS:
@@ -75,17 +125,19 @@ def run(res):
     results = behave.get_results(res.tier, res.seed, "behave")
     subsets = behave.get_results(res.tier, res.seed, "behave_subsets")
     matrix = behave.get_results(res.tier, res.seed, "behave_matrix")
+    nd, nd_true, fd = guard_denotation(res)
+    res.notes.update({"guard_denotation_cases": nd, "guard_denotation_true": nd_true})
     n1, nt1, f1 = check_results(res, results, "random history")
     n2, nt2, f2 = check_results(res, subsets, "exhaustive leaf subsets")
     n3, nt3, f3 = check_results(res, matrix, "expression shape x binding context matrix")
     if not ok:
-        res.violation(what, {"obligation": "Properties/C06.v"}, no_input=(f1 + f2 + f3 == 0))
+        res.violation(what, {"obligation": "Properties/C06.v"}, no_input=(f1 + f2 + f3 + fd == 0))
     if f1 + f2 + f3 > 0:
         for v in res.violations:
             v["no_input"] = False
     res.notes["guard_text_cases"] = rt["n"]
     res.notes["matrix_steps"] = n3
-    res.cov["evaluations"] = n1 + n2 + n3 + rt["n"]
+    res.cov["evaluations"] = n1 + n2 + n3 + rt["n"] + nd
     res.cov["distinct_nontrivial"] = nt1 + nt2 + nt3
     res.cov["rule"] = ("each evaluation = one update step compared with a fresh creation; random: generated templates (all element "
                        "kinds) x histories of 1-6 steps x U in {exact, coarsened to 1 or 2 segments, true}; exhaustive: 9 small "
